@@ -22,7 +22,7 @@ Task: make ONE small change to the library source (under /tmp/mut/{tag}/serde_ar
   (c) the change looks like something a maintainer could plausibly write (a refactor, an optimisation / fast path, a tidy-up, a 'simplification' of a check, a caching tweak), not sabotage, and
   (d) the breakage needs something SPECIFIC to manifest: a particular multi-step sequence of operations, an unusual but legal input, a particular combination of type / nesting / nullability / offset / option, or two cooperating sites that each look fine alone.  It must NOT be exposed at once by ordinary use (e.g. not 'every string column is now wrong').
 {hint}
-Then write a demonstration: an integration test file /tmp/mut/{tag}.out/demo_{tag}.rs (it will be copied to serde_arrow/tests/demo_{tag}.rs; it may use only the public API of serde_arrow and its dev-dependencies; if it needs arrow arrays it may use the `arrow-55` / `arrow2-0-17` features through `serde_arrow::_impl::arrow` / `serde_arrow::_impl::arrow2`, and marrow through `serde_arrow::marrow`) that PASSES on the unchanged tree and FAILS with your change.  Verify both yourself (use `git stash` / `git stash pop` or `git diff > patch; git checkout -- serde_arrow/src; …; git apply patch`).
+Then write a demonstration: an integration test file /tmp/mut/{tag}.out/demo_{tag}.rs (it will be copied to serde_arrow/tests/demo_{tag}.rs; it may use only the public API of serde_arrow and its dev-dependencies; if it needs arrow arrays it may use the `arrow-55` / `arrow2-0-17` features through `serde_arrow::_impl::arrow` / `serde_arrow::_impl::arrow2`, and marrow through `serde_arrow::marrow`) that PASSES on the unchanged tree and FAILS with your change.  Verify both yourself (NEVER use `git stash`: the stash is shared between all worktrees of this repository and other agents work in parallel; use `git diff > /tmp/mut/{tag}.out/patch.diff; git checkout -- serde_arrow/src; …; git apply /tmp/mut/{tag}.out/patch.diff`).
 
 Deliverables, all in /tmp/mut/{tag}.out/ :
   patch.diff     — `git -C /tmp/mut/{tag} diff -- serde_arrow/src` (source change only, no test file)
